@@ -107,8 +107,11 @@ def main(argv=None):
         if err:
             errors.append((h.name, err))
             continue
-        if tot.truncated:
+        if tot.truncated and not getattr(h, "partial_ok", False):
             inconclusive.append((h.name, "exploration truncated by its budget"))
+        elif tot.truncated:
+            print(f"PARTIAL {h.name}: budgeted exploration stopped after {tot.paths} paths (each explored path is decided "
+                  f"by the solver; the unexplored remainder is covered by the thorough tier)")
         if tot.inconclusive:
             inconclusive.append((h.name, f"{tot.inconclusive} inconclusive paths: {tot.inconclusive_reasons}"))
         if tot.unknown:
